@@ -35,6 +35,8 @@ type Target struct {
 	close func()
 }
 
+func NewTarget(addr string, closeFn func()) *Target { return &Target{Addr: addr, close: closeFn} }
+
 func (t *Target) Close() {
 	if t.close != nil {
 		t.close()
